@@ -1,13 +1,16 @@
 import Proofs.Dump
 import Proofs.DumpText
+import Proofs.DumpSeq
 import Props.C11
 
 /-!
 # C04 — the results table is a faithful, complete record of the evaluations
 
 Property theorems only.  Model: `Model/Dump.lean` (job outputs, `_on_done`, the CSV writer state
-machine after the `fix:` commits) and `Model/DumpPareto.lean` (the `pareto_efficient` column);
-helper lemmas: `Proofs/Dump.lean`.
+machine after the `fix:` commits), `Model/DumpPareto.lean` (the `pareto_efficient` column),
+`Model/DumpSeq.lean` (the class tests on the container of a multi-objective output) and
+`Model/SearchReturn.lean` (what `search()` hands back); helper lemmas: `Proofs/Dump.lean`,
+`Proofs/DumpSeq.lean`.
 
 A run is a list of operations `(batch, flush)`: `batch` = the jobs `process_local_tasks_done`
 appended to `jobs_done` since the previous dump, `flush` = the argument of
@@ -514,6 +517,136 @@ example : parseFile "p:c,objective\r\n\"a,\"\"b\"\"\",\"F_1\n2\"\r\n".toList
 example : onDoneObjective (.list [.num 1, .nonfin .nan]) = .str "F" := by decide +kernel
 example : (match standardizeOutput (.dict [("objective", .num 1), ("metadata", .num 3)]) with
     | .error e => some e | .ok _ => none) = some StdErr.badMetadata := by
+  decide +kernel
+
+/-! ### the Python class of the objectives' container (`Model/DumpSeq.lean`) -/
+
+/-- **C04 (container class).**  The writer with its class tests on `job.objective` explicit: whenever
+the tests accept the container class of every job of the run (every job still pending and every job
+finished later), it IS `dumpStep` on the same jobs - evaluator state and file after every sequence of
+dumps.  Arity, header and cells are functions of the components alone. -/
+theorem C04_container_class (T : ClassTests) (kindOf : Nat → SeqKind) (ops : List (List JobRec × Bool))
+    (st : DumpState) (t : Table)
+    (h : ∀ j ∈ st.pending ++ allJobs ops, T.infer (kindOf j.id) = true ∧ T.row (kindOf j.id) = true) :
+    runOpsK T kindOf st t ops = runOps st t ops :=
+  runOpsK_eq T kindOf ops st t h
+
+/-- **C04 (container class, the code).**  The tests of the code are `isinstance(…, (tuple, list))`:
+for EVERY assignment of container classes (tuple, list, namedtuple, subclass of tuple, subclass of
+list) to the jobs the table is the one `C04_rows` describes; two runs whose jobs differ only in the
+class of their containers write the same file. -/
+theorem C04_container_class_irrelevant (kindOf kindOf' : Nat → SeqKind)
+    (ops : List (List JobRec × Bool)) (st : DumpState) (t : Table) :
+    runOpsK codeTests kindOf st t ops = runOps st t ops ∧
+    runOpsK codeTests kindOf st t ops = runOpsK codeTests kindOf' st t ops := by
+  have h : ∀ k, runOpsK codeTests k st t ops = runOps st t ops :=
+    fun k => runOpsK_eq codeTests k ops st t (fun _ _ => ⟨rfl, rfl⟩)
+  exact ⟨h kindOf, (h kindOf).trans (h kindOf').symm⟩
+
+/-- `_on_done` too: with the code's test a non-finite component makes a failure of a sequence of any class -/
+theorem C04_on_done_container_class (kindOf : Nat → SeqKind) (tg : Val) (j : JobRec) :
+    onDoneK codeTests kindOf tg j = onDone tg j := by
+  simp [onDoneK, onDone, codeTests, isinstanceTupleList, onDoneObjectiveK_true]
+
+/-- non-vacuity: the hypothesis of `C04_container_class` holds for tests that accept tuples and lists
+only when the jobs return tuples and lists … -/
+example : ∀ j ∈ ([] : List JobRec) ++ allJobs [([w0], false), ([w1], false), ([w2], false), ([], true)],
+    typeIsTupleOrList ((fun i => if i = 1 then SeqKind.list else .tuple) j.id) = true ∧
+    typeIsTupleOrList ((fun i => if i = 1 then SeqKind.list else .tuple) j.id) = true := by
+  decide +kernel
+
+/-- … and a test that knows the exact class `tuple` only (the inference written as
+`len(o) if type(o) is tuple else 1`) loses the failure string as soon as the objectives come in a list:
+the header has `objective_0`, `objective_1`, the failed evaluation only has a cell `objective` -/
+example : (runOpsK ⟨isinstanceTupleList, typeIsTuple, isinstanceTupleList⟩ (fun _ => .list) DumpState.fresh Table.empty
+      [([w0], false), ([w1], false), ([w2], false), ([], true)]).2.rows.head?
+    = some [some (.num (1/4)), none, none, some (.num 0), some (.str "DONE"), some (.num 1), none] := by
+  decide +kernel
+
+example : (runOpsK ⟨isinstanceTupleList, typeIsTuple, isinstanceTupleList⟩ (fun _ => .tuple) DumpState.fresh Table.empty
+      [([w0], false), ([w1], false), ([w2], false), ([], true)]).2.rows
+    = (runOps DumpState.fresh Table.empty [([w0], false), ([w1], false), ([w2], false), ([], true)]).2.rows := by
+  decide +kernel
+
+/-! ### what `search()` hands back (`Model/SearchReturn.lean`) -/
+
+/-- **C04 (no evaluation, no table).**  A `Search` object whose evaluator has written nothing and holds
+nothing, and whose `search()` calls finish no evaluation (the empty output sequence: `max_evals=0`, or
+any number of calls in which nothing completes): evaluator and file stay what they were and `search()`
+hands back no table - whatever `results.csv` the directory holds (`t` is arbitrary: the table of an
+earlier search included). -/
+theorem C04_idle_search_returns_nothing (ops : List (List JobRec × Bool)) (st : DumpState) (t : Table)
+    (hs : st.started = false) (hp : st.pending = []) (hidle : allJobs ops = []) :
+    searchReturn (runOps st t ops).1 (runOps st t ops).2 = none ∧ (runOps st t ops).2 = t := by
+  rw [runOps_idle ops st t hp hidle]
+  simp [searchReturn, hs]
+
+/-- **C04 (the returned table is this search's own).**  If `search()` hands back a table, the evaluator
+of this `Search` object wrote it, and it is the table the same dumps write into an EMPTY directory: no
+line of a file that was there before (`t`) is in it.  With `C04_rows` / `C04_rows_reused_evaluator` (which
+describe the run from `Table.empty`): exactly one line per evaluation of this search. -/
+theorem C04_returned_table_is_own (ops : List (List JobRec × Bool)) (st : DumpState) (t tbl : Table)
+    (hs : st.started = false)
+    (hret : searchReturn (runOps st t ops).1 (runOps st t ops).2 = some tbl) :
+    tbl = (runOps st Table.empty ops).2 ∧ (runOps st t ops).1 = (runOps st Table.empty ops).1 := by
+  unfold searchReturn at hret
+  split at hret
+  · rename_i hst
+    cases hret
+    exact ⟨runOps_table_indep ops st t Table.empty hs hst, runOps_state_indep ops st t Table.empty⟩
+  · cases hret
+
+/-- **C04 (a results file is this search's file).**  For a `Search` constructed on the directory as it is
+(`searchInit`: an existing `results.csv` is renamed, the evaluator's dump state reset), "a results file
+exists" - the test of the code before the repair - and "this search has written" coincide after every
+sequence of dumps: both tests hand back the same thing. -/
+theorem C04_return_tests_agree (c : EvalChoice) (st : DumpState) (t : Table)
+    (ops : List (List JobRec × Bool)) :
+    searchReturnIfFile (runOps (searchInit c st t).1 (searchInit c st t).2 ops).1
+        (runOps (searchInit c st t).1 (searchInit c st t).2 ops).2 =
+      searchReturn (runOps (searchInit c st t).1 (searchInit c st t).2 ops).1
+        (runOps (searchInit c st t).1 (searchInit c st t).2 ops).2 := by
+  have h0 : (searchInit c st t).2.header.isSome = (searchInit c st t).1.started := by
+    cases c <;> cases hh : t.header <;> simp [searchInit, hh, Table.empty, DumpState.fresh]
+  have h := runOps_file_iff_started ops _ _ h0
+  simp only [searchReturnIfFile, searchReturn, h]
+
+/-- non-vacuity / the recorded finding: two `Search` objects constructed before either ran
+(`searchInitEarly`); the first finishes `w0, w1`, the second finishes nothing.  The repaired `search()`
+hands back nothing; the test "a results file exists" hands back the two lines of the FIRST search. -/
+example :
+    let r1 := runOps DumpState.fresh Table.empty [([w0], false), ([w1], false), ([], true)]
+    let s2 := searchInitEarly r1.1 r1.2
+    let r2 := runOps s2.1 s2.2 [([], true)]
+    (returnedRows (searchReturn r2.1 r2.2), returnedRows (searchReturnIfFile r2.1 r2.2)) = (0, 2) := by
+  decide +kernel
+
+/-- … while a second search that does finish an evaluation hands back exactly its own line under
+both tests (the first write renames the file it finds) -/
+example :
+    let r1 := runOps DumpState.fresh Table.empty [([w0], false), ([w1], false), ([], true)]
+    let s2 := searchInitEarly r1.1 r1.2
+    let r2 := runOps s2.1 s2.2 [([w2], false), ([], true)]
+    (returnedRows (searchReturn r2.1 r2.2), returnedRows (searchReturnIfFile r2.1 r2.2)) = (1, 1) := by
+  decide +kernel
+
+/-- the hypotheses of `C04_returned_table_is_own` hold for the second of two objects constructed early that
+finishes `w2` while the directory holds the two lines of the first: a table is handed back, by an
+evaluator that had written nothing, over a non-empty earlier file -/
+example :
+    let r1 := runOps DumpState.fresh Table.empty [([w0], false), ([w1], false), ([], true)]
+    let s2 := searchInitEarly r1.1 r1.2
+    s2.1.started = false ∧ s2.2.rows.length = 2 ∧
+      (searchReturn (runOps s2.1 s2.2 [([w2], false), ([], true)]).1
+        (runOps s2.1 s2.2 [([w2], false), ([], true)]).2).isSome = true := by
+  decide +kernel
+
+/-- the hypotheses of `C04_idle_search_returns_nothing` hold for a `Search` constructed on a used
+directory (`C04_new_search`) that is asked for zero evaluations, twice -/
+example :
+    let r1 := runOps DumpState.fresh Table.empty [([w0], false), ([w1], false), ([], true)]
+    let s2 := searchInit .reuse r1.1 r1.2
+    s2.1.started = false ∧ s2.1.pending = [] ∧ allJobs [(([] : List JobRec), true), ([], true)] = [] := by
   decide +kernel
 
 end DH.Dump
